@@ -621,8 +621,8 @@ class XMLFormatter(BaseFormatter):
                 skip_next = True  # also skip upcoming insert
             else:
                 new_diffs.append(diffs[i])
-        # append last diff, if it shouldn't be skipped
-        if not skip_next:
+        # append last diff, if there is one and it shouldn't be skipped
+        if diffs and not skip_next:
             new_diffs.append(diffs[-1])
         return new_diffs
 
